@@ -7,6 +7,9 @@ VERIF = Path(__file__).resolve().parent.parent
 
 # pid -> (engine, technique, level text, level_note, design_ref)
 CHECKS = {
+ 'C10': ('treedec', 'TLC enumerates all graphs (MC_TreeDec; R3: DP treewidth = min over all elimination orders) -> tree_decomposition x 3 methods, min_fill, minor_min_width, quickbb -> TLC judges validity and optimality by definition (Trace_TreeDec)',
+         'Exhaustive over every labelled simple graph on <=5 (quick) / <=6 (thorough) vertices in two vertex insertion orders, structured graphs (cliques, paths, cycles, stars, grids) and seeded graphs on 7-9 vertices; TLC decides tree-ness, coverage, running intersection and computes the treewidth by subset DP, itself cross-checked against all elimination orders (R3).',
+         'Trusted: TLC, TreeDec.tla (definition of tree decomposition, treewidth DP), the driver that converts the returned dict of frozensets into bags/edges. Empty graph: only validity (width conventions differ).', 'DESIGN.md#c10'),
  'C19': ('scc', 'TLC enumerates all digraphs (MC_Scc) -> fggs.utils.scc / nonterminal_graph -> TLC judges recorded results against SCCs-by-definition (Trace_Scc)',
          'Exhaustive over every digraph on <=3 (quick) / <=4 (thorough) vertices incl. self-loops, with all adjacency and vertex insertion orders, plus seeded digraphs to 8 vertices and seeded HRGs; each observed result is judged by TLC against the definitional components, partition and dependency order.',
          'Trusted: TLC, the 60-line definitional spec Scc.tla, the driver that builds the adjacency dict. Bounded by vertex count.', 'DESIGN.md#c19'),
